@@ -22,12 +22,110 @@ structure GSpec where
 structure GEds where
   spec : GSpec
   annotations : SMap
+  /-- read by `retrieveReplicaSetStatus` (group Conds) only -/
+  status : EDSStatus := default
+  deriving DecidableEq, Repr, Inhabited
+
+/-- `conditions.UpdateConditionOptions` (controllers/extendeddaemonset/conditions). -/
+structure GUpdateConditionOptions where
+  ignoreFalseConditionIfNotExist : Bool
+  supportLastUpdate : Bool
+  deriving DecidableEq, Repr, Inhabited
+
+/-! ### `corev1.Pod` as far as pkg/controller/utils/pod reads it (group Conds).  The field lists of
+`ContainerState*` are complete (the Go code compares these structs with their zero values). -/
+
+structure GWaiting where
+  reason : String
+  message : String
+  deriving DecidableEq, Repr, Inhabited
+
+structure GRunning where
+  startedAt : Time
+  deriving DecidableEq, Repr, Inhabited
+
+structure GTerminated where
+  exitCode : Int
+  signal : Int
+  reason : String
+  message : String
+  startedAt : Time
+  finishedAt : Time
+  containerID : String
+  deriving DecidableEq, Repr, Inhabited
+
+structure GContainerState where
+  waiting : Option GWaiting
+  running : Option GRunning
+  terminated : Option GTerminated
+  deriving DecidableEq, Repr, Inhabited
+
+structure GContainerStatus where
+  name : String
+  state : GContainerState
+  lastTerminationState : GContainerState
+  restartCount : Int
+  deriving DecidableEq, Repr, Inhabited
+
+structure GPodCondition where
+  type : String
+  status : String
+  lastProbeTime : Time
+  lastTransitionTime : Time
+  reason : String
+  message : String
+  deriving DecidableEq, Repr, Inhabited
+
+structure GPodStatus where
+  phase : String
+  conditions : List GPodCondition
+  reason : String
+  startTime : Option Time
+  initContainerStatuses : List GContainerStatus
+  containerStatuses : List GContainerStatus
+  ephemeralContainerStatuses : List GContainerStatus
+  deriving DecidableEq, Repr, Inhabited
+
+structure GNodeSelector where
+  nodeSelectorTerms : List Term
+  deriving DecidableEq, Repr, Inhabited
+
+structure GNodeAffinity where
+  required : Option GNodeSelector
+  deriving DecidableEq, Repr, Inhabited
+
+structure GAffinity where
+  nodeAffinity : Option GNodeAffinity
+  deriving DecidableEq, Repr, Inhabited
+
+structure GPodSpec where
+  nodeName : String
+  affinity : Option GAffinity
+  deriving DecidableEq, Repr, Inhabited
+
+structure GPod where
+  name : String
+  ns : String
+  creationTimestamp : Time
+  deletionTimestamp : Option Time
+  deletionGracePeriodSeconds : Option Int
+  spec : GPodSpec
+  status : GPodStatus
   deriving DecidableEq, Repr, Inhabited
 
 namespace Go
 
 /-- `l[i]`; `none` = index out of range (panic). -/
 def index {α} (l : List α) (i : Int) : Option α := if i < 0 then none else l[i.toNat]?
+
+/-- `l[i] = v`; `none` = index out of range (panic). -/
+def setIndex {α} (l : List α) (i : Int) (v : α) : Option (List α) :=
+  if i < 0 then none else if i.toNat < l.length then some (l.set i.toNat v) else none
+
+/-- `s == nil` for a slice: the model's lists do not distinguish a nil slice from an empty non-nil
+one; `nilSlice` (a parameter of the translated function, universally quantified in the bridge
+theorems) says which of the two an empty list stands for. -/
+def sliceIsNil {α} (nilSlice : Bool) (l : List α) : Bool := nilSlice && l.isEmpty
 
 /-- `conditions.GetIndexForConditionType`: index of the first entry of that type, −1 if absent. -/
 def condIndex (cs : List Cond) (t : String) : Int :=
@@ -40,6 +138,51 @@ def valueFromIntOrPercent (x : Option IntOrStr) (total : Int) : Int × Option St
   match resolveIntOrPercent x total with
   | some v => (v, none)
   | none => (0, some "invalid value for IntOrString")
+
+/-! ### the harness's canonical form of a pod (harness/canon/canon.go, `cstat` / `CPod`) as a function of the
+Go-side records: what ties the translated pod helpers to the model's `ContainerStatus` / `PodCond`. -/
+
+def zeroTerminated : GTerminated :=
+  { exitCode := 0, signal := 0, reason := "", message := "", startedAt := zeroTime, finishedAt := zeroTime,
+    containerID := "" }
+
+def zeroState : GContainerState := { waiting := none, running := none, terminated := none }
+
+/-- `canon.cstat`. -/
+def canonCstat (s : GContainerStatus) : ContainerStatus :=
+  { name := s.name, restarts := s.restartCount,
+    waiting := s.state.waiting.map (·.reason),
+    lastTerm := s.lastTerminationState.terminated.map fun t =>
+      { reason := t.reason, finishedAt := t.finishedAt, empty := t == zeroTerminated } }
+
+/-- `canon.CPod(...).Cstats`: containers ++ init ++ ephemeral. -/
+def canonCstats (p : GPod) : List ContainerStatus :=
+  (p.status.containerStatuses ++ p.status.initContainerStatuses ++ p.status.ephemeralContainerStatuses).map canonCstat
+
+def canonPodCond (c : GPodCondition) : PodCond :=
+  { type := c.type, status := c.status, reason := c.reason, lastTransition := c.lastTransitionTime }
+
+/-- `canon.CPod(...).Conds`. -/
+def canonPodConds (p : GPod) : List PodCond := p.status.conditions.map canonPodCond
+
+/-- `canon.Aff(...)`'s second result: the required node-selector terms, `none` when any of
+Affinity / NodeAffinity / RequiredDuringSchedulingIgnoredDuringExecution is nil. -/
+def canonAffRequired (a : Option GAffinity) : Option (List Term) :=
+  match a with
+  | none => none
+  | some a =>
+    match a.nodeAffinity with
+    | none => none
+    | some na =>
+      match na.required with
+      | none => none
+      | some sel => some sel.nodeSelectorTerms
+
+/-- what the kubelet guarantees of `lastState`: when it is set at all, it is set to `terminated`.
+`HighestRestartCount` / `MostRecentRestart` dereference `LastTerminationState.Terminated` after checking
+only `LastTerminationState != ContainerState{}`; without this they panic (see BridgeConds, finding). -/
+def lastStateWF (s : GContainerStatus) : Prop :=
+  s.restartCount ≠ 0 → s.lastTerminationState ≠ zeroState → s.lastTerminationState.terminated.isSome = true
 
 end Go
 end Eds
